@@ -697,6 +697,11 @@ class HttpRequestParser(HttpParser[RawRequestMessage]):
         if method == "CONNECT":
             # authority-form,
             # https://datatracker.ietf.org/doc/html/rfc7230#section-5.3.3
+            if path == "*" or "/" in path or "?" in path or "#" in path:
+                # origin-form, absolute-form and asterisk-form are no authority
+                raise InvalidURLError(
+                    path.encode(errors="surrogateescape").decode("latin1")
+                )
             url = URL.build(authority=path, encoded=True)
         elif path.startswith("/"):
             # origin-form,
